@@ -11,6 +11,7 @@ import ALV.Lemmas.C20Clip
 import ALV.Lemmas.C20Zcross
 import ALV.Lemmas.C20Unwrap
 import ALV.Lemmas.C20Call
+import ALV.Lemmas.C20Causal
 import ALV.Gen.C20Defaults
 import ALV.Common.Audit
 
@@ -607,6 +608,35 @@ theorem rat_calls (md step h fs : Option Rat) (low high : Arg Rat) (xs : List Ra
     R.zcrossCall (h.map some) (fs.map some) xs = .ok (R.zcross (h.getD 0) (fs.getD 0) xs) :=
   ⟨unwrapCall_eq R.fl piQ md step xs, clipCall_eq low high xs, (zcrossCall_eq h fs xs).1⟩
 
+/-! ### causality: the first `n` outputs depend on the first `n` inputs only
+
+An endless input is read through `take` / `islice`; the model is given the samples that were read.
+These theorems say that this loses nothing: every tool maps a prefix of the input to the same
+prefix of the output (for all parameters, with no order or field hypothesis at all). -/
+section causal
+variable {K : Type} [Field K] [LinearOrder K]
+
+/-- **C20.13** every tool is causal. -/
+theorem tools_are_causal (size lag : Nat) (zero h fs md step : K) (fl : K → K) (b a : List K)
+    (low high : Option K) (xs ys : List K) :
+    (maverageDeque size zero (xs ++ ys)).take xs.length = maverageDeque size zero xs ∧
+    (maverageRecursive size zero (xs ++ ys)).take xs.length = maverageRecursive size zero xs ∧
+    (maverageFir size zero (xs ++ ys)).take xs.length = maverageFir size zero xs ∧
+    (accumulateFunc (xs ++ ys)).take xs.length = accumulateFunc xs ∧
+    (accumulateZ zero (xs ++ ys)).take xs.length = accumulateZ zero xs ∧
+    (amdf lag size zero (xs ++ ys)).take xs.length = amdf lag size zero xs ∧
+    (envelopeAbs b a (xs ++ ys)).take xs.length = envelopeAbs b a xs ∧
+    (envelopeSquared b a (xs ++ ys)).take xs.length = envelopeSquared b a xs ∧
+    (zcross h fs (xs ++ ys)).take xs.length = zcross h fs xs ∧
+    (unwrap fl md step (xs ++ ys)).take xs.length = unwrap fl md step xs ∧
+    (∀ zs, clip low high (xs ++ ys) = .ok zs → clip low high xs = .ok (zs.take xs.length)) :=
+  ⟨maverageDeque_prefix size zero xs ys, frun_prefix _ _ zero xs ys, frun_prefix _ _ zero xs ys,
+   accumulateFunc_prefix xs ys, frun_prefix _ _ zero xs ys, amdf_prefix lag size zero xs ys,
+   (envelope_prefix b a xs ys).1, (envelope_prefix b a xs ys).2, zcross_prefix h fs xs ys,
+   unwrap_prefix fl md step xs ys, fun zs => clip_prefix low high xs ys zs⟩
+
+end causal
+
 /-! ### non-vacuity -/
 example : (0 < 4) ∧ maverageDeque 2 (0 : Rat) [1, 3, 5] = [1/2, 2, 4] := by decide +kernel
 example : amdf 2 2 (0 : Rat) [1, 3, -2, 5] = [1/2, 2, 3, 5/2] := by decide +kernel
@@ -638,6 +668,8 @@ example : R.maverageCall none 2 none [1, 3, 5] = [1/2, 2, 4] ∧
   decide +kernel
 example : (0 : Rat) < 3 ∧ (1 : Rat) ≤ 5/4 ∧ (5/4 : Rat) < 3 / 2 ∧
     R.unwrap 1 3 [0, 6/5, 5, 4] = R.unwrap (5/4) 3 [0, 6/5, 5, 4] := by decide +kernel
+example : (R.unwrap 1 2 ([1, 3/2, -2] ++ [5/4, 7])).take 3 = R.unwrap 1 2 [1, 3/2, -2] ∧
+    (R.zcross 1 0 ([1/2, 2] ++ [-1/2, -3, 5])).take 2 = R.zcross 1 0 [1/2, 2] := by decide +kernel
 
 end ALV.Props.C20
 
